@@ -93,7 +93,7 @@ pub fn profile_for(prop: usize, fi: bool) -> Profile {
         11 => {
             p.faults = &["N-DROP", "N-DUP", "N-DELAY", "P-CRASH-S", "D-LOST", "B-POST", "B-TURN"];
             p.policy_w = [5, 0, 0, 95];
-            p.start_w = [10, 20, 15, 20, 35];
+            p.start_w = [10, 15, 15, 15, 45];
             p.max_plies = 260;
             p.max_events = 2600;
             p.claim_probes = true;
@@ -526,7 +526,11 @@ impl World {
                 (gen::random_valid(&mut self.rng, men, ep, hb), "random_valid")
             }
             3 => (gen::endgame(&mut self.rng), "endgame"),
-            _ => gen::pattern(&mut self.rng),
+            _ => {
+                // the long-game profile favours the rights-and-shufflers family (kind 8)
+                let forced = if self.prof.prop == 11 && self.rng.chance(1, 2) { Some(8) } else { None };
+                gen::pattern_with(&mut self.rng, forced)
+            }
         };
         self.cfg.start_class = name;
         self.exec.stats.cnt_dyn(format!("start.{}", name));
